@@ -54,7 +54,9 @@ func indexObject(p *lang.Process, params []string) error {
 
 func indexTable(p *lang.Process, params []string) error {
 	cRecords := make(chan []string, 10)
-	status := make(chan error)
+	// buffered so that a late or repeated report (eg one per missing row)
+	// never blocks its goroutine after the first error has been returned
+	status := make(chan error, len(params)+2)
 
 	go func() {
 		err1 := p.Stdin.ReadArray(p.Context, func(b []byte) {
@@ -92,7 +94,8 @@ func indexTable(p *lang.Process, params []string) error {
 	marshaller := func(s []string) []byte {
 		b, err3 := lang.MarshalData(p, types.Json, s)
 		if err3 != nil {
-			close(cRecords)
+			// cRecords belongs to the reader goroutine above, which closes it
+			// itself: closing it here as well panicked ("close of closed channel")
 			status <- err3
 		}
 		return b
